@@ -1,0 +1,135 @@
+//go:build verif
+
+package raft
+
+// Inspection hooks for the verification harness (/verif). Add-only; compiled
+// only with -tags verif.
+
+import (
+	"sort"
+
+	pb "github.com/lni/dragonboat/v4/raftpb"
+)
+
+// VRemote is the projection of one remote.
+type VRemote struct {
+	ID            uint64
+	Kind          int // 0 remote, 1 nonVoting, 2 witness
+	Match         uint64
+	Next          uint64
+	SnapshotIndex uint64
+	State         uint64
+	Active        bool
+	AckTick       uint64
+	AckRejected   bool
+}
+
+// VRead is the projection of one pending ReadIndex request.
+type VRead struct {
+	Low, High uint64
+	Index     uint64
+	From      uint64
+	Confirmed []uint64
+}
+
+// VState is the projection of a raft node compared with the Coq model.
+type VState struct {
+	ReplicaID, Term, Vote, LeaderID, Applied            uint64
+	Role                                                uint64
+	Committed, Processed, FirstIndex, LastIndex         uint64
+	MarkerTerm, SavedTo                                 uint64
+	Entries                                             []pb.Entry
+	EntriesCompacted                                    bool
+	PendingSnapshot                                     *pb.Snapshot
+	Remotes                                             []VRemote
+	Votes                                               map[uint64]bool
+	Reads                                               []VRead
+	Msgs                                                []pb.Message
+	DroppedEntries                                      []pb.Entry
+	DroppedReads                                        []pb.SystemCtx
+	ReadyToRead                                         []pb.ReadyToRead
+	TransferTarget                                      uint64
+	IsTransferTarget, PendingCC, Quiesce, Snapshotting  bool
+	ElectionTick, HeartbeatTick, RandTimeout, TickCount uint64
+	HasLeaderUpdate                                     bool
+	LeaderUpdate                                        pb.LeaderUpdate
+	PrevState                                           pb.State
+}
+
+func vremotes(m map[uint64]*remote, kind int, out []VRemote) []VRemote {
+	for id, r := range m {
+		out = append(out, VRemote{ID: id, Kind: kind, Match: r.match, Next: r.next,
+			SnapshotIndex: r.snapshotIndex, State: uint64(r.state), Active: r.active,
+			AckTick: r.delayed.ctick, AckRejected: r.delayed.rejected})
+	}
+	return out
+}
+
+// VInspect returns the projection of p.
+func VInspect(p *Peer) VState {
+	r := p.raft
+	s := VState{ReplicaID: r.replicaID, Term: r.term, Vote: r.vote, LeaderID: r.leaderID,
+		Applied: r.applied, Role: uint64(r.state), Committed: r.log.committed,
+		Processed: r.log.processed, FirstIndex: r.log.firstIndex(), LastIndex: r.log.lastIndex(),
+		SavedTo: r.log.inmem.savedTo, TransferTarget: r.leaderTransferTarget,
+		IsTransferTarget: r.isLeaderTransferTarget, PendingCC: r.pendingConfigChange,
+		Quiesce: r.quiesce, Snapshotting: r.snapshotting, ElectionTick: r.electionTick,
+		HeartbeatTick: r.heartbeatTick, RandTimeout: r.randomizedElectionTimeout,
+		TickCount: r.tickCount, PrevState: p.prevState}
+	if t, err := r.log.term(s.FirstIndex - 1); err == nil {
+		s.MarkerTerm = t
+	}
+	if s.LastIndex >= s.FirstIndex {
+		ents, err := r.log.getEntries(s.FirstIndex, s.LastIndex+1, noLimit)
+		if err != nil {
+			s.EntriesCompacted = true
+		} else {
+			s.Entries = ents
+		}
+	}
+	if r.log.inmem.snapshot != nil {
+		ss := *r.log.inmem.snapshot
+		s.PendingSnapshot = &ss
+	}
+	s.Remotes = vremotes(r.remotes, 0, s.Remotes)
+	s.Remotes = vremotes(r.nonVotings, 1, s.Remotes)
+	s.Remotes = vremotes(r.witnesses, 2, s.Remotes)
+	sort.Slice(s.Remotes, func(i, j int) bool {
+		if s.Remotes[i].Kind != s.Remotes[j].Kind {
+			return s.Remotes[i].Kind < s.Remotes[j].Kind
+		}
+		return s.Remotes[i].ID < s.Remotes[j].ID
+	})
+	s.Votes = map[uint64]bool{}
+	for k, v := range r.votes {
+		s.Votes[k] = v
+	}
+	for _, ctx := range r.readIndex.queue {
+		st := r.readIndex.pending[ctx]
+		vr := VRead{Low: ctx.Low, High: ctx.High}
+		if st != nil {
+			vr.Index, vr.From = st.index, st.from
+			for id := range st.confirmed {
+				vr.Confirmed = append(vr.Confirmed, id)
+			}
+			sort.Slice(vr.Confirmed, func(i, j int) bool { return vr.Confirmed[i] < vr.Confirmed[j] })
+		}
+		s.Reads = append(s.Reads, vr)
+	}
+	s.Msgs = append(s.Msgs, r.msgs...)
+	s.DroppedEntries = append(s.DroppedEntries, r.droppedEntries...)
+	s.DroppedReads = append(s.DroppedReads, r.droppedReadIndexes...)
+	s.ReadyToRead = append(s.ReadyToRead, r.readyToRead...)
+	if r.leaderUpdate != nil {
+		s.HasLeaderUpdate = true
+		s.LeaderUpdate = *r.leaderUpdate
+	}
+	return s
+}
+
+// VSetRandomizedTimeout forces the randomized election timeout (the value the
+// implementation drew is the oracle input of the model; on replay it is forced).
+func VSetRandomizedTimeout(p *Peer, v uint64) { p.raft.randomizedElectionTimeout = v }
+
+// VRawHandle calls raft.Handle directly (the path used by local messages).
+func VRawHandle(p *Peer, m pb.Message) error { return p.raft.Handle(m) }
